@@ -609,22 +609,19 @@ func limitRequestOK(p *Program, rq *FuncSrc) (ok bool, n int) {
 			}
 			n++
 			st, _ := ff.At(as)
+			if st != nil && tv.Value == nil {
+				// limitSid = <condition>: it becomes true exactly where the condition holds
+				st = ff.assume(st, rhs, true)
+			}
 			if st == nil || !st.HasFact(mkFact(true, "true", TVar(vl), nil)) || !st.HasFact(mkFact(false, "true", TVar(vid), nil)) {
 				ok = false
 				continue
 			}
 			few := false
-			if tv.Value != nil && tv.Value.String() == "true" {
-				for _, f := range st.Facts() {
-					if f.Op == "lt" && f.Pos && f.A.K == 'v' && f.B != nil && f.B.Name == "2" {
-						few = true
-					}
+			for _, f := range st.Facts() {
+				if f.Op == "lt" && f.Pos && f.A.K == 'v' && f.B != nil && f.B.Name == "2" {
+					few = true
 				}
-			} else if be, isB := rhs.(*ast.BinaryExpr); isB {
-				// limitSid = count < 2
-				two := func(e ast.Expr) bool { t := info.Types[e]; return t.Value != nil && t.Value.String() == "2" }
-				isVar := func(e ast.Expr) bool { _, v := unparen(e).(*ast.Ident); return v }
-				few = (be.Op == token.LSS && isVar(be.X) && two(be.Y)) || (be.Op == token.GTR && two(be.X) && isVar(be.Y))
 			}
 			if !few {
 				ok = false
